@@ -42,6 +42,43 @@ def fold(e):
     return None
 
 
+def fold_set(e, limit=16):
+    """every constant an expression can evaluate to when it only depends on joins of constants
+    (`match v { A => 17, B => 18 } + 4` -> {21, 22}); None if it depends on anything else"""
+    k = fold(e)
+    if k is not None:
+        return {k}
+    s = e.strip() if e.k in ("ref", "deref") else e
+    if s.k == "phi":
+        out = set()
+        for x in s.a:
+            fs = fold_set(x, limit)
+            if fs is None:
+                return None
+            out |= fs
+            if len(out) > limit:
+                return None
+        return out
+    if s.k == "cast":
+        return fold_set(s.a[0], limit)
+    if s.k == "field" and s.x["name"] == "0" and s.a[0].k == "bin":
+        return fold_set(s.a[0], limit)
+    if s.k == "un" and s.x["op"] == "Neg":
+        a = fold_set(s.a[0], limit)
+        return None if a is None else {-x for x in a}
+    if s.k == "bin":
+        a, b_ = fold_set(s.a[0], limit), fold_set(s.a[1], limit)
+        if a is None or b_ is None:
+            return None
+        op = s.x["op"].replace("WithOverflow", "").replace("Unchecked", "")
+        fn = {"Add": lambda x, y: x + y, "Sub": lambda x, y: x - y, "Mul": lambda x, y: x * y}.get(op)
+        if fn is None:
+            return None
+        out = {fn(x, y) for x in a for y in b_}
+        return out if len(out) <= limit else None
+    return None
+
+
 def dom_order(b, sites):
     """execution order of sites on the (acyclic) spine: reverse post-order of their blocks"""
     from .mirror import rpo
@@ -135,35 +172,68 @@ def trailer_read(F):
     mread = [x for x in ios if x[1] == "read"][0]
     out["magic_read"] = (mread[2], mread[3])
     out["magic_read_after_seek"] = b.dominates(first_seek[0], mread[0])
-    # magic table
+    # magic table: the body specialised to each accepted magic value (and to "anything else") tells which
+    # version is built; all the per-version facts are read off the body specialised that way, so it does not
+    # matter whether the versions are two separate arms or one shared sequence with a per-version step
     table = {}
+    msw = None
     for bb in sorted(b.normal_blocks()):
         t = b.term(bb)
         if t["t"] == "switch":
             e = b.expr_of_operand(t["discr"], Site(bb, None)).strip()
             if e.k == "call" and e.x.get("site") == mread[0]:
-                for v, tb in t["arms"]:
-                    table[int(v)] = _version_built(b, tb)
-                table["otherwise"] = _err_built(b, t["otherwise"])
+                msw = bb
+                break
+    if msw is None:
+        out["magic_table"] = {}
+        return out
+    is_magic = lambda sb_: (lambda e, enum: e.strip().k == "call" and e.strip().x.get("site") == mread[0])
+    vals = [int(v) for v, tb in b.term(msw)["arms"]]
+    spec = {}
+    for v in vals + ["otherwise"]:
+        sb = specialise_switch(b, lambda e, enum, _v=v: (_v if (e.strip().k == "call" and e.strip().x.get("site") == mread[0]) else None), None)
+        ags = [(s, rv) for s, st in sb.sites() if s.i is not None and st["s"] == "assign" and st["rv"]["rv"] == "agg" and st["rv"].get("adt") == A("meta_struct") for rv in [st["rv"]]]
+        if v == "otherwise":
+            alts = flat_alts(sb.expr_at_return())
+            errs = [a for a in alts if a.k == "agg" and a.x.get("variant") == "Err"]
+            oks = [a for a in alts if a.k == "agg" and a.x.get("variant") == "Ok"]
+            if not errs:
+                # the error is built and then returned by `?`: look inside the residual
+                for a_ in alts:
+                    if a_.k == "call" and a_.x["path"].endswith("::from_residual"):
+                        errs += [x for x in a_.walk() if x.k == "agg" and x.x.get("variant") == "Err" and (x.x.get("adt") or "").endswith("result::Result")]
+            kinds = {x.a[0].show() for x in errs}
+            table["otherwise"] = ("Err(" + sorted(kinds)[0] + ")") if (len(kinds) == 1 and not oks and not ags) else "?"
+            continue
+        ver = "?"
+        if len(ags) == 1:
+            fv = agg_field_expr(sb, ags[0][0], ags[0][1], "file_version").strip()
+            if fv.k == "agg" and (fv.x.get("adt") or "").endswith("FileVersion"):
+                ver = fv.x.get("variant")
+            elif fv.k == "text" and fv.x.get("variant"):
+                ver = fv.x["variant"]
+        table[v] = ver
+        spec[ver] = (sb, ags)
     out["magic_table"] = table
-    bb, arms = version_arms(b)
-    for ver, reg in arms.items():
+    for ver, (sb, ags) in spec.items():
+        if ver == "?":
+            continue
         seq = []
         sk = None
-        for s, kind, w, en in io_calls(b, reg):
+        ios_v = [x for x in io_calls(sb, sb.normal_blocks()) if x[0] != first_seek[0] and x[0] != mread[0]]
+        for s, kind, w, en in ios_v:
             if kind == "seek":
-                p = b.arg_exprs(s)[1].strip()
+                p = sb.arg_exprs(s)[1].strip()
                 sk = (p.x.get("variant"), fold(p.a[0]) if p.a else None)
                 seq.append(("seek",))
             elif kind == "read":
                 seq.append((w, en))
-        ag = [(s, rv) for bb_, s, rv in aggregates(F, A("meta_struct")) if bb_.path == b.path and s.bb in reg]
         fields = {}
-        if len(ag) == 1:
-            s, rv = ag[0]
-            reads = [x[0] for x in io_calls(b, reg) if x[1] == "read"]
+        if len(ags) == 1:
+            s, rv = ags[0]
+            reads = [x[0] for x in ios_v if x[1] == "read"]
             for fld in rv["fields"]:
-                e = agg_field_expr(b, s, rv, fld)
+                e = agg_field_expr(sb, s, rv, fld)
                 k = fold(e)
                 if k is not None:
                     fields[fld] = ("const", k)
@@ -172,7 +242,7 @@ def trailer_read(F):
                 via = [x.x["path"].rsplit("::", 1)[-1] for x in e.walk() if x.k == "call" and x.x["path"].startswith("compression::")]
                 if hit:
                     fields[fld] = ("read", hit[-1], tuple(via))
-                elif e.strip().k == "agg" or "FileVersion" in e.show() or e.strip().k in ("var", "phi"):
+                elif e.strip().k in ("agg", "text") or "FileVersion" in e.show() or e.strip().k in ("var", "phi"):
                     fields[fld] = ("version",)
                 else:
                     fields[fld] = ("?", e.show()[:60])
